@@ -39,6 +39,12 @@ pub fn simmon_case(ctx: &Ctx, case: u64, acc: &mut Acc, arm: Arm) -> Verdict {
     let mut nop = |_: &Sim, _: usize, _: &CallRec| -> Result<(), V> { Ok(()) };
     let join = *r.pick(&JOINS);
     form(&mut sim, n, join, 2 * p, acc, &mut nop)?;
+    if case % 16 == 0 {
+        // a long quiet stretch first: more than 256 probe rounds, so that the u8 probe numbers wrap
+        let t_quiet = sim.now + 270 * p;
+        sim.run_until(t_quiet, acc, &mut nop)?;
+        acc.tally("simmon_long_quiet_runs", 1);
+    }
     // a script of disturbances over 60 periods
     let mut t = sim.now;
     let mut script = vec![];
